@@ -244,10 +244,11 @@ def run_case(spec, work):
             pw.run_ref_markers(stats_path, path, tmp,
                                n_valid=int(rng.integers(2, 12)))
         except Exception:
-            return {'violations': [], 'counters': {},
-                    'inconclusive': 'pipeline stages raised: '
-                    + traceback.format_exc()[-300:],
-                    'features': None, 'nontrivial': False}
+            return {'violations': [{
+                        'sig': 'C12:pipeline-stage-raised-on-valid-input',
+                        'msg': traceback.format_exc()[-600:]}],
+                    'counters': {}, 'features': ['raised'],
+                    'nontrivial': True}
         genes_f, p2i, up_f, down_f = read_tables(path)
         klass = 'pipeline'
         ctx.bump('pipeline_tables_checked')
